@@ -80,8 +80,14 @@ def name_of_message(nametype, txt):
     return None
 
 
-def grammar_of(mm, nametype="ID"):
-    """A recursive carrier grammar: every class is `<Class> [name] { attr: value ... }`."""
+PRIM_TEXT = "7"     # how a plain value (0 in the graph) is written; the attribute alternative is INT
+
+
+def grammar_of(mm, nametype="ID", style="sep"):
+    """A recursive carrier grammar: every class is `<Class> [name] { attr: value ... }`.
+    style: how a list of references is written in the grammar: "sep" `a+=[T][',']`,
+    "rep" `a=[T] (',' a=[T])*` (the same attribute assigned at two places with the same target;
+    textX makes it a list)."""
     kws = [keyword(c["name"]) for c in mm["classes"]]
     for a in kws:
         for b in kws:
@@ -101,14 +107,18 @@ def grammar_of(mm, nametype="ID"):
                 # (and makes it a list)
                 if not a["many"]:
                     raise tlc.MachineryError("an OBJECT-typed carrier attribute is a list")
-                alts = " | ".join(f"{n}+={r}" for r in a["alts"])
+                alts = " | ".join(f"{n}+={r}" for r in list(a["alts"]) + (["INT"] if a["prim"] else []))
                 parts.append(f"('{n}:' '[' ({alts})* ']')?")
+            elif a["cont"] and a["prim"]:
+                raise tlc.MachineryError("plain values are only rendered for OBJECT-typed carrier attributes")
             elif a["cont"] and not a["many"]:
                 parts.append(f"('{n}:' {n}={t})?")
             elif a["cont"]:
                 parts.append(f"('{n}:' '[' {n}*={t} ']')?")
             elif not a["many"]:
                 parts.append(f"('{n}:' {n}={link})?")
+            elif style == "rep":
+                parts.append(f"('{n}:' {n}={link} (',' {n}={link})*)?")
             else:
                 parts.append(f"('{n}:' {n}+={link}[','])?")
         parts.append("'}'")
@@ -120,13 +130,15 @@ def grammar_of(mm, nametype="ID"):
     return "\n".join(rules[r] for r in order) + "\n"
 
 
-def check_metamodel(mm, real_mm):
-    """The real meta-model must have exactly the attributes the data says (renderer self-check)."""
+def check_metamodel(mm, real_mm, ref_types=True):
+    """The real meta-model must have exactly the attributes the data says (renderer self-check).
+    ref_types=False: the target class of a reference attribute is not looked at here (C07 judges it
+    through the behaviour of the references)."""
     for c in mm["classes"]:
         cls = real_mm[c["name"]]
-        got = [(a.name, bool(a.cont), a.mult in ("0..*", "1..*"), a.cls.__name__)
+        got = [(a.name, bool(a.cont), a.mult in ("0..*", "1..*"), a.cls.__name__ if (a.cont or ref_types) else "-")
                for a in cls._tx_attrs.values() if a.name != "name"]
-        want = [(a["name"], a["cont"], a["many"], a["typ"]) for a in c["attrs"]]
+        want = [(a["name"], a["cont"], a["many"], a["typ"] if (a["cont"] or ref_types) else "-") for a in c["attrs"]]
         if got != want or (("name" in cls._tx_attrs) != c["named"]):
             raise tlc.MachineryError(f"carrier grammar does not give the meta-model data for {c['name']}: {got} vs {want}")
     for a in mm["abstracts"]:
@@ -172,7 +184,10 @@ def render(mm, g, nametype="ID"):
                 if a["many"]:
                     out.append(pad + f"  {n}: [")
                     for k in e:
-                        node(k, depth + 2)
+                        if k == 0:
+                            out.append(pad + "    " + PRIM_TEXT)
+                        else:
+                            node(k, depth + 2)
                     out.append(pad + "  ]")
                 else:
                     out.append(pad + f"  {n}:")
@@ -195,8 +210,9 @@ def paths(g):
         o = todo.pop()
         for k in g["kids"][o - 1]:
             for j, e in enumerate(k["e"]):
-                out[e] = out[o] + [[k["a"], j]]
-                todo.append(e)
+                if e != 0:
+                    out[e] = out[o] + [[k["a"], j]]
+                    todo.append(e)
     return out
 
 
@@ -229,6 +245,13 @@ class Located:
                 if len(vs) != len(k["e"]):
                     self.problems.append(f"object {o}.{k['a']} holds {len(vs)} elements, rendered {len(k['e'])}")
                 for e, x in zip(k["e"], vs):
+                    if e == 0:
+                        if not isinstance(x, int) or isinstance(x, bool):
+                            self.problems.append(f"object {o}.{k['a']} holds a {type(x).__name__} where a plain value was rendered")
+                        continue
+                    if isinstance(x, (int, str, float, bool)):
+                        self.problems.append(f"object {o}.{k['a']} holds a plain value where object {e} was rendered")
+                        continue
                     self.real[e] = x
                     todo.append(e)
         for o, x in self.real.items():
@@ -244,19 +267,32 @@ class Located:
 # ------------------------------------------------------------------ random graphs (rendering data only)
 
 
-def random_graph(rng, mm, n, names=None, ref_p=0.5, max_list=3):
-    """A seeded-random object tree over mm with n objects (or fewer when the tree cannot grow)."""
-    g = dict(cls=[], name=[], par=[], kids=[], refs=[])
+def add_object(mm, g, c, name, p=0, attr=None):
+    """Append an object of class c to graph g (under attribute `attr` of object p); returns its number."""
+    cd = class_of(mm, c)
+    o = len(g["cls"]) + 1
+    g["cls"].append(c)
+    g["name"].append(name if cd["named"] else "")
+    g["par"].append(p)
+    g["kids"].append([dict(a=a["name"], e=[]) for a in cd["attrs"] if a["cont"]])
+    g["refs"].append([dict(a=a["name"], names=[]) for a in cd["attrs"] if not a["cont"]])
+    if p:
+        next(k for k in g["kids"][p - 1] if k["a"] == attr)["e"].append(o)
+    return o
 
-    def add(c, p):
-        cd = class_of(mm, c)
+
+def empty_graph():
+    return dict(cls=[], name=[], par=[], kids=[], refs=[])
+
+
+def random_graph(rng, mm, n, names=None, prim_p=0.12):
+    """A seeded-random object tree over mm with n objects (or fewer when the tree cannot grow);
+    lists that can hold plain values get some."""
+    g = empty_graph()
+
+    def add(c, p, attr=None):
         o = len(g["cls"]) + 1
-        g["cls"].append(c)
-        g["name"].append((rng.choice(names) if names else f"n{o}") if cd["named"] else "")
-        g["par"].append(p)
-        g["kids"].append([dict(a=a["name"], e=[]) for a in cd["attrs"] if a["cont"]])
-        g["refs"].append([dict(a=a["name"], names=[]) for a in cd["attrs"] if not a["cont"]])
-        return o
+        return add_object(mm, g, c, rng.choice(names) if names else f"n{o}", p, attr)
 
     add(mm["root"], 0)
     for _ in range(n * 6):
@@ -270,8 +306,11 @@ def random_graph(rng, mm, n, names=None, ref_p=0.5, max_list=3):
         k = next(k for k in g["kids"][p - 1] if k["a"] == a["name"])
         if not a["many"] and k["e"]:
             continue
+        if a["prim"] and a["many"] and rng.random() < prim_p:
+            k["e"].append(0)
+            continue
         c = rng.choice(allowed_classes(mm, a))
-        k["e"].append(add(c, p))
+        add(c, p, a["name"])
     return g
 
 
@@ -290,7 +329,8 @@ def renumber(g, order_rng=None):
         seq.append(o)
         for k in g["kids"][o - 1]:
             for e in k["e"]:
-                walk(e)
+                if e != 0:
+                    walk(e)
 
     walk(root_of(g))
     out = dict(cls=[], name=[], par=[], kids=[], refs=[])
@@ -298,7 +338,7 @@ def renumber(g, order_rng=None):
         out["cls"].append(g["cls"][o - 1])
         out["name"].append(g["name"][o - 1])
         out["par"].append(new.get(g["par"][o - 1], 0))
-        out["kids"].append([dict(a=k["a"], e=[new[e] for e in k["e"]]) for k in g["kids"][o - 1]])
+        out["kids"].append([dict(a=k["a"], e=[new[e] if e else 0 for e in k["e"]]) for k in g["kids"][o - 1]])
         out["refs"].append(g["refs"][o - 1])
     return out
 
@@ -335,3 +375,27 @@ def ask(mm, cases, dev=""):
         return tlc.oracle("NavOracle", cases, env={"VT_MM": p, "VT_DEV": dev})
     finally:
         shutil.rmtree(work, ignore_errors=True)
+
+
+# ------------------------------------------------------------------ decoy meta-models (history before a check)
+
+
+def decoy_containment(mm):
+    """Same rule names, other rule bodies: every class keeps only its first containment attribute and no
+    references.  Used to give Python user classes a past with another meta-model."""
+    d = json.loads(json.dumps(mm))
+    for c in d["classes"]:
+        keep = [a for a in c["attrs"] if a["cont"]][:1]
+        c["attrs"] = keep
+    return d
+
+
+def decoy_hierarchy(mm, shift=1):
+    """Same rule names, other inheritance: the named classes are rotated inside the alternatives of the
+    abstract rules, so that conformance between two rule names differs from mm."""
+    d = json.loads(json.dumps(mm))
+    named = [c["name"] for c in d["classes"] if c["named"]]
+    perm = {n: named[(i + shift) % len(named)] for i, n in enumerate(named)}
+    for a in d["abstracts"]:
+        a["subs"] = [perm.get(x, x) for x in a["subs"]]
+    return d
